@@ -28,6 +28,7 @@ struct Spec {
   int psiPattern = 0;                  // per-tick growth of `some total` (us): 0 none, 1 below target, 2 above, 3 10x, 4 alternating, 5 ramp
   int envEvent = 0;                    // 0 none, 1 target removed at tick 4, 2 re-created at tick 4, 3 third party sets memory.high at tick 4, 4 usage grows at tick 3
   bool twoTargets = false;
+  bool failReclaim = false;            // opening memory.reclaim for the probe fails with EAGAIN (the kernel may refuse a reclaim request)
   // senpai args (empty = default)
   std::map<std::string, std::string> args;
   int ticks = 8;
@@ -36,7 +37,7 @@ struct Spec {
     o << "usage=" << usage << " file=" << fileCache << " anon=" << anon << " min=" << memMin << " high=" << (memHigh == MAXV ? -1 : memHigh) << " max=" << (memMax == MAXV ? -1 : memMax)
       << " swapA=(" << (swapMaxA == MAXV ? -1 : swapMaxA) << "," << swapCurA << ") swapT=(" << (swapMaxT == MAXV ? -1 : swapMaxT) << "," << swapCurT << ") rootswap=(" << rootSwapTotalKb << "k," << rootSwapUsedKb
       << "k) swappiness=" << swappiness << " reclaimfile=" << hasReclaim << " hightmp=" << hasHighTmp << " some=(" << memSome << "," << ioSome << ") psi=" << psiPattern << " env=" << envEvent
-      << " targets=" << (twoTargets ? "t/*" : "t/a") << " args{";
+      << " targets=" << (twoTargets ? "t/*" : "t/a") << (failReclaim ? " memory.reclaim-write-fails" : "") << " args{";
     for (auto& kv : args) o << kv.first << "=" << kv.second << " ";
     o << "}";
     return o.str();
@@ -149,6 +150,19 @@ struct C18 : vr::Driver {
                 if (tg == 2) s.args["pressure_pct"] = "0.03";
                 specs.push_back(s);
               }
+      // C2. swappiness modulation, also when the reclaim request itself fails
+      if (imm)
+        for (int fr = 0; fr < 2; fr++)
+          for (long long used : {524288LL, 1992294LL})
+            for (int psi : {0, 1}) {
+              Spec s = base(true);
+              s.args["modulate_swappiness"] = "true";
+              s.hasReclaim = true;
+              s.failReclaim = fr;
+              s.rootSwapUsedKb = used;
+              s.psiPattern = psi;
+              specs.push_back(s);
+            }
       // D. environment histories
       for (int ev = 1; ev <= 4; ev++)
         for (int psi : {0, 2})
@@ -176,6 +190,12 @@ struct C18 : vr::Driver {
     vb::resetLog();
     vb::clockNs = vb::kEpochNs;
     world::reset();
+    vb::onAccess = nullptr;
+    if (sp.failReclaim)
+      vb::onAccess = [](const char* op, const std::string& path) -> int {
+        bool opening = strncmp(op, "open", 4) == 0 || strncmp(op, "fopen", 5) == 0;
+        return opening && path.size() > 15 && path.compare(path.size() - 15, 15, "/memory.reclaim") == 0 ? EAGAIN : 0;
+      };
     const long long memTotal = 16LL * GB;
     world::setMeminfo(memTotal / 1024, memTotal / 2048, sp.rootSwapTotalKb, sp.rootSwapTotalKb - sp.rootSwapUsedKb);
     world::setSwaps(sp.rootSwapTotalKb > 0 ? sp.rootSwapTotalKb : -1, sp.rootSwapUsedKb);
